@@ -20,7 +20,7 @@ from pathlib import Path
 from . import common as C
 from .common import cstr, cbool, clist, ctuple, copt, cN, cnat
 
-HEADER = "From AM.Model Require Import Base Cleaner."
+HEADER = "From AM.Model Require Import Base Cleaner.\nFrom AM.Lemmas Require Import CleanFlat."
 COQ_DEFS = """
 Fixpoint ins_s (x : string) (l : list string) : list string :=
   match l with [] => [x] | y :: r => if String.ltb x y then x :: l else y :: ins_s x r end.
@@ -35,6 +35,16 @@ Definition ob_eqb (a b : option bool) := match a, b with Some x, Some y => Bool.
 Definition eq_obs (a b : obs) : bool :=
   match a, b with (f1, d1, t1, c1, n1, a1), (f2, d2, t2, c2, n2, a2) =>
     list_eqb String.eqb f1 f2 && list_eqb String.eqb d1 d2 && N.eqb t1 t2 && N.eqb c1 c2 && Nat.eqb n1 n2 && ob_eqb a1 a2 end.
+(* the regular files left by clean() (wipe guard included), with their sizes, sorted by path *)
+Fixpoint ins_e (x : string * N) (l : list (string * N)) : list (string * N) :=
+  match l with [] => [x] | y :: r => if String.ltb (fst x) (fst y) then x :: l else y :: ins_e x r end.
+Definition m_flat (c : list rpath * tree * (N * N) * (N * N)) : list (string * N) :=
+  match c with (keep, t, sr, cr) =>
+    let r := scan keep true [] t in
+    let t' := match clean_allowed true r sr cr with Some true => apply_clean r t | _ => t end in
+    fold_right ins_e [] (map (fun e => (join_with "/" (fst e), snd e)) (flat [] t'))
+  end.
+Definition eq_flat := list_eqb (fun a b : string * N => String.eqb (fst a) (fst b) && N.eqb (snd a) (snd b)).
 Definition m_script (c : list (bool * string)) : string :=
   render_cmds shell_quote (map (fun x : bool * string => if fst x then RmF (snd x) else RmR (snd x)) c).
 Definition m_words (c : list (bool * string)) : list (list string) :=
@@ -227,6 +237,9 @@ def run_case(rep, case, sb: Path):
     except OSError as e:
         err = repr(e)
     after_a = listing(copies["A"])
+    # what clean() left, file by file, against CleanFlat.flat of the model's cleaned tree
+    left = sorted((k, v[1]) for k, v in after_a.items() if v[0] == "f")
+    rows["flat"] = (case, model_in, clist(ctuple(cstr(k), cN(sz)) for k, sz in sorted(left, key=lambda x: x[0].encode())))
     want = spec_after(t, keep, allowed)
     if err or after_a != want:
         found = True
@@ -440,7 +453,7 @@ def run(rep: C.Report):
     n = 250 if rep.tier == "quick" else 8000
     sb = Path(os.path.realpath(tempfile.mkdtemp(prefix="vsb_c04_", dir=os.environ.get("VERIF_TMP", "/tmp"))))
     found = False
-    rows = {"scan": [], "script": [], "words": []}
+    rows = {"scan": [], "script": [], "words": [], "flat": []}
     try:
         cases = []
         d = C.VERIF / "corpus" / "C04"
@@ -464,7 +477,8 @@ def run(rep: C.Report):
     finally:
         shutil.rmtree(sb, ignore_errors=True)
     header = HEADER + COQ_DEFS
-    for tie, fn, eqb in (("scan", "m_scan", "eq_obs"), ("script", "m_script", "String.eqb"), ("words", "m_words", "eq_words")):
+    for tie, fn, eqb in (("scan", "m_scan", "eq_obs"), ("script", "m_script", "String.eqb"), ("words", "m_words", "eq_words"),
+                         ("flat", "m_flat", "eq_flat")):
         rs = rows[tie]
         mism, errors = C.run_mismatch_shards(rep.prop, tie, header, fn, eqb, [(a, b) for _, a, b in rs], shard=80)
         C.tie_verdict(rep, tie, mism, errors, [c for c, _, _ in rs], found, header=header, fn=fn,
